@@ -15,4 +15,5 @@ var Scenarios = map[string]func() *Scenario{
 	"C12": C12Scenario,
 	"C13": C13Scenario,
 	"C16": C16Scenario,
+	"C19": C19Scenario,
 }
